@@ -263,7 +263,13 @@ impl Phase for RandomSeq {
                     }
                 },
                 1 => Ast::Const(RV::Int(*k)),
-                2 => Ast::Read((*r.pick(&["a", "a", "e0", "e1", "_", "min", "math::pi", "len"])).to_string()),
+                2 => Ast::Read((*r.pick(&["a", "a", "e0", "e1", "_", "min", "math::pi", "len", "p", "p"])).to_string()),
+                3 if r.chance(1, 6) => {
+                    // a tuple variable takes tuples of any length
+                    let n = *r.pick(&[2usize, 3, 4, 6, 1]);
+                    let elems: Vec<Ast> = (0..n.max(2)).map(|j| Ast::Const(RV::Int(*k * 10 + j as i64))).collect();
+                    Ast::Assign("=", "p".into(), Box::new(Ast::Group(Box::new(Ast::Tuple(elems)))))
+                },
                 3 if r.chance(1, 4) => {
                     // variables named like a discard pattern, a builtin function, a well-known constant: names like any other
                     let t = *r.pick(&["_", "min", "math::pi", "len", "if"]);
